@@ -301,4 +301,7 @@ def run(chk, ctx):
     from . import round4
     round4.batch_reentry_keeps_retry(chk, ctx)
     round4.teardown_scoped_to_terminated_groups(chk, ctx)   # 'the state is re-run': retrying a nested fan-out must not cancel the enclosing one
+    from . import round5
+    round5.join_drops_branch_retry_info(chk, ctx)
+    round5.placeholder_not_visible_to_error_handling(chk, ctx)
     chk.assume("one retry counter per state (the engine does not count per retrier; the property's wording does not pin this down)")
